@@ -75,7 +75,9 @@ CLAIMED.update({
          "ping; _connectionLost cancels what could still act; _connectionMade (both roles) starts a connection CONNECTING "
          "with no close bookkeeping, no pending ping and exactly the open-handshake timer armed with the configured delay "
          "(none when that timeout is switched off).",
-    note=WS_NOTE + " Arming of the first auto-ping (inside the handshake functions) is not yet under contract.",
+    note=WS_NOTE + " Arming of the first auto-ping: on the client it is a postcondition of the C07 client-handshake unit "
+         "(scheduled with the configured interval exactly when configured); on the server (succeedHandshake) it is not under "
+         "contract.",
     technique="contract-based deductive verification: ghost timer handles, z3"),
 })
 
@@ -271,13 +273,15 @@ CLAIMED.update({
          "over an abstract compressor with ghost history): a message is sent as the compressor's complete output for it "
          "with RSV1 on the first frame only -- for every fragmentation --, a do-not-compress message bypasses the compressor "
          "and travels in the clear with RSV1 clear, and the invariant 'every message the current compressor has absorbed "
-         "went out in full, flagged' is preserved on every exit, including a message refused for its size.",
+         "went out in full, flagged' is preserved on every exit, including a message refused for its size.  Receive side "
+         "(frame hooks, shared with C02 / C16): a message is inflated exactly when its first frame carries RSV1 with an "
+         "extension negotiated (the header unit rejects every other RSV pattern, compressed control frames and RSV on "
+         "continuation frames); UTF-8 validation and buffering apply to the inflated octets, chunk by chunk.",
     note="Trusted: z3, pyvc, int(text) as a function of the text, zlib as recorded constructor calls. Not covered (level "
          "'other'): losslessness of the codecs themselves (zlib, bz2, snappy, brotli are third-party), "
-         "_parseExtensionsHeader and the handshake-side extension handling (C07), RSV1 on receive with a negotiated "
-         "extension inside the frame hooks (the header decision itself -- exactly RSV1, only on the first frame of a data "
-         "message, only with an extension negotiated -- is part of the C02 header unit), streaming send with compression, "
-         "the bzip2 / snappy / brotli negotiation classes.",
+         "_parseExtensionsHeader and the handshake-side extension handling (C07), streaming send with compression, the "
+         "bzip2 / snappy / brotli negotiation classes; a damaged compressed stream makes the codec raise out of the frame "
+         "hook (not turned into a protocol failure by the library; stated in the onFrameData contract).",
     technique="contract-based deductive verification: AST->VC, optional-key dictionaries, contract-level lemma program, z3; "
               "one finite-domain lemma by exhaustive enumeration; send-side counterexamples replayed on a real client / "
               "server pair with real zlib"),
